@@ -80,6 +80,9 @@ def configs(tier):
     L.append(dict(strategy='cell', D=2, lmin=2, lmax=2, func='cornerpeak', norm=np.inf, single_step=True))
     L.append(dict(strategy='extendsplit', D=2, lmin=1, lmax=2, func='cornerpeak', norm=np.inf, recalc=2))
     L.append(dict(strategy='dimwise', D=2, lmin=1, lmax=2, func='product', norm=2, recalc=1, single_step=True))
+    # the library's own check of the final scheme switched on (test_scheme): it must not trip on any run
+    L.append(dict(strategy='dimwise', D=2, lmin=1, lmax=2, func='vector', norm=np.inf, test_scheme=True))
+    L.append(dict(strategy='extendsplit', D=2, lmin=1, lmax=2, func='cornerpeak', norm=2, test_scheme=True))
     return L
 
 
@@ -92,7 +95,7 @@ def run(tier, seed):
     nlims = 14 if tier == 'quick' else 40
     for c in configs(tier):
         name = '%s D=%d (%d,%d) %s norm=%s%s%s%s%s' % (c['strategy'], c['D'], c['lmin'], c['lmax'], c['func'], c['norm'], ' zero-ref' if c.get('zero_ref') else '', ' ' + c['ec'] if c.get('ec') else '',
-                                                 ' single_step' if c.get('single_step') else '', ' recalc=%d' % c['recalc'] if c.get('recalc') else '')
+                                                 ' single_step' if c.get('single_step') else '', (' recalc=%d' % c['recalc'] if c.get('recalc') else '') + (' test_scheme' if c.get('test_scheme') else ''))
         try:
             # probe: never stop by error, stop after nprobe evaluations (via a growing maximum)
             probe_events = None
